@@ -49,6 +49,7 @@ func genC12(rt *rapid.T) core.Scenario {
 	sc := &C12Scenario{Store: StoreCfg{Kind: rapid.SampledFrom([]string{"mem", "mem", "mem", "sqlite"}).Draw(rt, "store")}}
 	if sc.Store.Kind == "sqlite" {
 		sc.Store.StreamBatch = rapid.SampledFrom([]int{0, 0, 2}).Draw(rt, "streamBatch")
+		sc.Store.Instr = rapid.IntRange(0, 3).Draw(rt, "instr") == 3
 	}
 	if rapid.IntRange(0, 4).Draw(rt, "paged") == 4 {
 		sc.Store.HideStreamer = true
